@@ -310,11 +310,65 @@ def discharge(pc: list, goal, timeout_ms: int = 20000, want_model=True, watch=No
                                    note="model found for the strengthened query len(lhs) != len(rhs)")
         except z3.Z3Exception:
             pass
+    vf = _finite_domain_refute(pc, goal, min(15000, timeout_ms))
+    if vf is not None:
+        vf.secs = time.time() - t0
+        return vf
     va = _ackermann_refute(pc, goal, min(10000, timeout_ms))
     if va is not None:
         va.secs = time.time() - t0
         return va
     return Verdict("unknown", "z3-5.1", time.time() - t0, note=str(s.reason_unknown()))
+
+
+def _finite_domain_refute(pc, goal, timeout_ms):
+    """queries over uninterpreted sorts with quantifiers (set/relation invariants):
+    look for a counter-model whose uninterpreted sorts have at most k elements.
+    The answer is a *candidate* (not validated by evaluation): the caller reports
+    it as a violation only when the replay reproduces a failure."""
+    sorts = {}
+    todo = list(pc) + [goal]
+    seen = set()
+    while todo:
+        t = todo.pop()
+        if t.get_id() in seen:
+            continue
+        seen.add(t.get_id())
+        if z3.is_quantifier(t):
+            for i in range(t.num_vars()):
+                so = t.var_sort(i)
+                if so.kind() == z3.Z3_UNINTERPRETED_SORT:
+                    sorts[so.name()] = so
+            todo.append(t.body())
+            continue
+        if z3.is_app(t):
+            if t.sort().kind() == z3.Z3_UNINTERPRETED_SORT:
+                sorts[t.sort().name()] = t.sort()
+            todo.extend(t.children())
+    if not sorts:
+        return None
+    for k in (2, 3):
+        s = z3.Solver()
+        s.set("timeout", timeout_ms // 2)
+        for c in pc:
+            s.add(c)
+        s.add(z3.Not(goal))
+        for name, so in sorts.items():
+            elems = [z3.Const(f"fd!{name}!{i}", so) for i in range(k)]
+            q = z3.Const(f"fdq!{name}", so)
+            s.add(z3.ForAll([q], z3.Or(*[q == e for e in elems])))
+        try:
+            if s.check() == z3.sat:
+                m = s.model()
+                md = {d.name(): {"term": str(m[d])[:160]} for d in m.decls()
+                      if d.arity() == 0 and not d.name().startswith(("fd!", "fdq!"))}
+                md = dict(list(md.items())[:25])
+                return Verdict("candidate", "z3-5.1", 0.0, md,
+                               note=f"counter-model with <= {k} elements per uninterpreted sort (not validated by "
+                                    "evaluation; reported as a violation only if the replay reproduces it)")
+        except z3.Z3Exception:
+            pass
+    return None
 
 
 def _ackermann_refute(pc, goal, timeout_ms):
